@@ -7,7 +7,7 @@ Rec == ndJsonDeserialize(IOEnv.TRACE)
 Strict == IOEnv.STRICT = "1"
 N == Len(Rec)
 
-TrSupOf == [a \in Actors |-> IF a \in {"A", "L"} THEN "S" ELSE IF a = "B" THEN "A" ELSE NoA]
+TrSupOf == [a \in Actors |-> IF a \in {"A", "L", "C"} THEN "S" ELSE IF a = "B" THEN "A" ELSE NoA]
 TrMonPairs == Actors \X Actors
 TrMax == [a \in Actors |-> 1000]
 TrEnvOps == [a \in Actors |-> {"stop", "kill", "drain", "abort", "selfkill", "selfstop", "joinpg"}]
@@ -59,6 +59,8 @@ EnvEv ==
   \/ IsA("obs.monitor") /\ Ev.by \in Actors /\ Monitor(Ev.by, X) /\ Adv /\ ND
   \/ IsA("obs.unmonitor") /\ Ev.by \in Actors /\ Unmonitor(Ev.by, X) /\ Adv /\ ND
   \/ IsA("obs.stop") /\ Stop(X, Ev.reason) /\ Adv /\ ND
+  \/ IsA("obs.stop_kids") /\ StopKids(X, Ev.reason) /\ Adv /\ ND
+  \/ IsA("obs.drain_kids") /\ DrainKids(X) /\ Adv /\ ND
   \/ IsA("obs.drain") /\ Drain(X) /\ Adv /\ ND
   \/ IsA("obs.inject") /\ Inject(X) /\ (Ev.d = 1) = ac[X].rxOpen /\ Adv /\ ND
   \/ /\ IsA("obs.abort") /\ Adv /\ ND
